@@ -4,7 +4,7 @@ from __future__ import annotations
 
 import ast
 
-from engine.core import AnalysisError, Repo, norm
+from engine.core import AnalysisError, Repo, kwarg_of, norm, walk_no_nested
 from engine.fold import DimVec, Tables
 from engine.mutate import Mutant
 from engine.report import Result
@@ -48,6 +48,7 @@ def check(repo: Repo) -> Result:
     prefix_composition(repo, res)
     homomorphism(repo, res)
     ratio_direction(repo, res)
+    filed_scales(repo, res)
     return res
 
 
@@ -135,7 +136,7 @@ def prefix_composition(repo, res):
     bad_keys = {f.key.split("/", 1)[1]: f for f in tmp.findings}
     n = 0
     for k in tmp.rules["C12-R2"]["keys"]:
-        if k.endswith(":derived-rows") or k == "_forget_prefixed":
+        if k.endswith(":derived-rows") or k.startswith("_forget_prefixed"):
             n += 1
             if k in bad_keys:
                 f = bad_keys[k]
@@ -144,6 +145,76 @@ def prefix_composition(repo, res):
                 res.ok(f"edit:{k}", r2)
     if n < 4:
         raise AnalysisError("C12-R2 no longer reports the derived-row obligations C02-R2 relies on")
+
+
+def filed_scales(repo, res):
+    """C02-R5: the number a user-facing definition files in the table as a unit's scale is the quantity's SI (mks)
+    magnitude.  define_unit and UnitRegistry.modify accept a quantity; the value reaching the table is followed back
+    through the local assignments, and every base-system conversion on the way must name "mks" explicitly -
+    in_base() without a system converts into the *registry's own* unit system (cgs, galactic, code units ...)."""
+    r5 = res.rule("C02-R5", "scales filed from a quantity (define_unit, UnitRegistry.modify) are its magnitude in SI: every base conversion on the way names the mks system", floor=3)
+    uo, reg = repo.mod(UO), repo.mod(REG)
+    sites = []
+    du = uo.func("define_unit")
+    res.fn(du)
+    adds = [c for c in walk_no_nested(du.node) if isinstance(c, ast.Call) and isinstance(c.func, ast.Attribute) and c.func.attr == "add" and len(c.args) >= 2]
+    if len(adds) != 1:
+        raise AnalysisError(f"{du.where()}: the registry.add call of define_unit was not found")
+    sites.append((du, adds[0].args[1], "define_unit", True))
+    md = reg.func("UnitRegistry.modify")
+    res.fn(md)
+    sym = md.params[1]
+    stores = [n for n in walk_no_nested(md.node) if isinstance(n, ast.Assign) and any(norm(t) == f"self.lut[{sym}]" for t in n.targets)]
+    if len(stores) != 1:
+        raise AnalysisError(f"{md.where()}: the table write of modify was not found")
+    first = stores[0].value
+    while isinstance(first, ast.BinOp):
+        first = first.left
+    scale = first.elts[0] if isinstance(first, ast.Tuple) and first.elts else None
+    if scale is None:
+        raise AnalysisError(f"{md.where(stores[0])}: the stored row is not a tuple literal (+ tail)")
+    sites.append((md, scale, "modify", False))
+    for fn, expr, label, must_convert in sites:
+        # closure of the expression over local definitions
+        seen, todo, nodes = set(), [expr], []
+        while todo:
+            e = todo.pop()
+            nodes.append(e)
+            for x in ast.walk(e):
+                if isinstance(x, ast.Name) and x.id not in seen:
+                    seen.add(x.id)
+                    for st in walk_no_nested(fn.node):
+                        if isinstance(st, ast.Assign) and any(norm(t) == x.id for t in st.targets):
+                            todo.append(st.value)
+        convs = []
+        for e in nodes:
+            for c in ast.walk(e):
+                if isinstance(c, ast.Call) and isinstance(c.func, ast.Attribute) and c.func.attr in ("in_base", "in_mks", "in_cgs", "convert_to_base", "in_units", "to", "to_value"):
+                    convs.append(c)
+        seen_ids, uniq = set(), []
+        for c in convs:
+            if id(c) not in seen_ids:
+                seen_ids.add(id(c))
+                uniq.append(c)
+        bad = []
+        n_si = 0
+        for c in uniq:
+            a = c.func.attr
+            if a == "in_mks":
+                n_si += 1
+            elif a in ("in_base", "convert_to_base"):
+                arg = c.args[0] if c.args else kwarg_of(c, "unit_system")
+                if isinstance(arg, ast.Constant) and arg.value == "mks":
+                    n_si += 1
+                else:
+                    bad.append(norm(c))
+            elif a == "in_cgs":
+                bad.append(norm(c))
+        res.check(not bad, f"{label}:si-system", fn.where(), f"{label} files a scale obtained by a base conversion that does not name the mks system: with a registry whose unit system is cgs / galactic / code units the stored number is not the factor to SI", "in_base('mks') / in_mks()", bad, rid=r5)
+        if must_convert:
+            res.check(n_si >= 1, f"{label}:converted", fn.where(), f"{label} must convert the defining quantity to SI before filing its magnitude", found=[norm(c) for c in uniq], rid=r5)
+        else:
+            res.check(n_si >= 1 or not uniq, f"{label}:converted", fn.where(), f"{label}: a quantity argument is converted to SI before its magnitude is filed", found=[norm(c) for c in uniq], rid=r5)
 
 
 def _unit_ctor_binding(fn, call, repo):
@@ -382,4 +453,8 @@ MUTANTS = [
     Mutant("twin-row-float-spelling", LUT, None, '("bar", (1.0e5,', '("bar", (100000.0,', (), benign=True),
     Mutant("modify-purges-derived-late", REG, "UnitRegistry.modify", "        self._forget_prefixed(symbol)\n        if hasattr(base_value, \"in_base\"):", "        if hasattr(base_value, \"in_base\"):", ("C02-R2",), more=[(REG, "UnitRegistry.modify", "        # any cached unit string (prefixed or compound) may mention the symbol\n", "        self._forget_prefixed(symbol)\n", 1)]),
     Mutant("walk-float-exponent", UO, "_get_unit_data_from_expr", "conv = float(unit_data[0] ** power)", "conv = float(unit_data[0] ** float(power))", (), benign=True),
+    Mutant("define-unit-default-system", UO, "define_unit", 'value.in_base(unit_system="mks")', "value.in_base()", ("C02-R5",)),
+    Mutant("define-unit-in-mks", UO, "define_unit", 'value.in_base(unit_system="mks")', "value.in_mks()", (), benign=True),
+    Mutant("modify-default-system", REG, "UnitRegistry.modify", 'base_value.in_base("mks")', "base_value.in_base()", ("C02-R5",)),
+    Mutant("purge-divides-prefix-out", REG, "UnitRegistry._forget_prefixed", "and derived[:3] == (entry[0] * prefix_value, entry[1], entry[2])", "and (derived[0] / prefix_value, derived[1], derived[2]) == entry[:3]", ("C02-R2",)),
 ]
